@@ -68,6 +68,9 @@ def create_table(probabilities, states):
         scaled_probabilities = thetas / sum_probabilities
         alias_method = AliasMethod(scaled_probabilities, states)
         return J, alias_method
+    elif len(J) == 256 and nb_last_elements == 0:
+        # all the probabilities are multiples of 1/256: the table is complete and the alias method is never called
+        return J, None
     else:
         logging.error("there is 0 probability associated to the current set of states")
         raise ValueError("probabilities is an array of 0s")
